@@ -167,7 +167,9 @@ def cases(ctx):
     count = 0
     for version in ("2.0", "2.1", "2.2"):
         wake = 32 if version == "2.2" else 22
-        for size in ctx.pick([255, 256, 257, 1024], [63, 64, 127, 128, 255, 256, 257, 511, 512, 1023, 1024, 1025, 2048, 5000]):
+        from .. import codedict
+
+        for size in codedict.thresholds(ctx.pick([256, 1024], [64, 128, 256, 512, 1024, 2048, 5000]), low=8, cap=5001):
             for event in ("re-present", "flag-cleared", "none"):
                 if not ctx.mine():
                     continue
